@@ -51,6 +51,8 @@ type Plan struct {
 	Faults  []string    `json:"faults,omitempty"` // fault kinds the generator put into this plan
 	Expect  *Expect     `json:"expect,omitempty"` // generator annotations for the oracle
 	MaxStep int         `json:"max_step"`
+	// AcceptFail: this many accept calls of the servers fail transiently (the connection stays in the backlog)
+	AcceptFail int `json:"accept_fail,omitempty"`
 }
 
 type SvcOpts struct {
@@ -90,6 +92,7 @@ type Reaction struct {
 	Kind  string `json:"kind"` // ok | late | dup | unknown | never
 	Delay int64  `json:"delay,omitempty"`
 	Var   int    `json:"var,omitempty"` // 0: the minimal response body; >0: a body with content, derived from this number
+	Sub   int    `json:"sub,omitempty"` // >= 2: the response is sent as this many sub-packages (kinds ok and late only)
 }
 
 // Actor is a sequential script of environment operations.
@@ -108,16 +111,19 @@ type Dep struct {
 }
 
 type Op struct {
-	K       string    `json:"k"` // dial | send | fin | rst | failw | sleep | quiet | call | mark
-	Data    Hex       `json:"data,omitempty"`
-	End     bool      `json:"end,omitempty"` // after this chunk the byte stream is at a frame boundary
-	D       int64     `json:"d,omitempty"`   // ns
-	MinStep int       `json:"min_step,omitempty"`
-	After   *Dep      `json:"after,omitempty"`
-	Quiet   bool      `json:"quiet,omitempty"`
-	Call    *CallSpec `json:"call,omitempty"`
-	Note    string    `json:"note,omitempty"`
-	Frame   int       `json:"frame,omitempty"` // index of the (last) frame completed by this chunk, +1; 0 = none
+	K       string `json:"k"` // dial | send | fin | rst | failw | sleep | quiet | call | mark
+	Data    Hex    `json:"data,omitempty"`
+	End     bool   `json:"end,omitempty"` // after this chunk the byte stream is at a frame boundary
+	D       int64  `json:"d,omitempty"`   // ns
+	MinStep int    `json:"min_step,omitempty"`
+	After   *Dep   `json:"after,omitempty"`
+	// AfterClose: enabled only once the server has closed connection AfterClose-1 (what a terminal that reconnects
+	// on EOF waits for)
+	AfterClose int       `json:"after_close,omitempty"`
+	Quiet      bool      `json:"quiet,omitempty"`
+	Call       *CallSpec `json:"call,omitempty"`
+	Note       string    `json:"note,omitempty"`
+	Frame      int       `json:"frame,omitempty"` // index of the (last) frame completed by this chunk, +1; 0 = none
 }
 
 type CallSpec struct {
@@ -189,6 +195,16 @@ type UpFile struct {
 	Name HexStr `json:"name"`
 	Data Hex    `json:"data"`
 	Type byte   `json:"type"`
+	// Size, when set, is the announced size of a file whose content is not kept (only a few packets of it are ever
+	// sent, each with its own random payload); otherwise the size is len(Data)
+	Size int64 `json:"size,omitempty"`
+}
+
+func (f UpFile) size() int {
+	if f.Size > 0 {
+		return int(f.Size)
+	}
+	return len(f.Data)
 }
 
 func (p *Plan) Clone() *Plan {
